@@ -527,9 +527,14 @@ def foreign_planters(idx: ProgramIndex, rep: Report):
                 # a loop variable over a literal collection of policies
                 lit = None
                 for loop in ast.walk(fi.node):
-                    if isinstance(loop, ast.For) and isinstance(loop.target, ast.Name) and loop.target.id == k.id and isinstance(loop.iter, (ast.Tuple, ast.List, ast.Set)) \
-                            and all(isinstance(e, ast.Constant) and isinstance(e.value, str) for e in loop.iter.elts) and any(x is c for x in ast.walk(loop)):
-                        lit = {e.value for e in loop.iter.elts}
+                    it = loop.iter if isinstance(loop, ast.For) else None
+                    # `A if complete else B`: all policies when the targets are complete (what this clause is about: no NaN at all)
+                    if isinstance(it, ast.IfExp) and any("isnan" in src(a_.value) for a_ in ast.walk(fi.node) if isinstance(a_, ast.Assign) and any(isinstance(t_, ast.Name) and t_.id in {x.id for x in ast.walk(it.test) if isinstance(x, ast.Name)} for t_ in a_.targets)):
+                        neg = isinstance(it.test, ast.UnaryOp) and isinstance(it.test.op, ast.Not)
+                        it = it.orelse if neg else it.body
+                    if isinstance(loop, ast.For) and isinstance(loop.target, ast.Name) and loop.target.id == k.id and isinstance(it, (ast.Tuple, ast.List, ast.Set)) \
+                            and all(isinstance(e, ast.Constant) and isinstance(e.value, str) for e in it.elts) and any(x is c for x in ast.walk(loop)):
+                        lit = {e.value for e in it.elts}
                 keys.update(lit if lit is not None else {"<%s>" % k.id})
             else:
                 keys.add("<%s>" % " ".join(src(k).split())[:30])
